@@ -406,6 +406,16 @@ def h_fragment(eng, case):
     _robust(eng, dict(case, strict=True), case['front'], 0x64, tobytes(pk.encode()))
 
 
+def h_stray_nack(eng, case):
+    """a Nack nobody is waiting for, with any reason code, whose returned Interest falls under an attached handler's
+    prefix (or names nothing at all): dropped, handler not invoked, nothing sent"""
+    import ndn.encoding as enc
+    name = case['name']
+    reason = eng.int('reason', 0, 2 ** 64 - 1)
+    wire = enc.make_network_nack(enc.make_interest(name, enc.InterestParam(nonce=3, lifetime=4000)), reason)
+    _robust(eng, dict(case, strict=True, state=3), case['front'], 0x64, tobytes(wire))
+
+
 def h_udp(eng, case):
     """UdpFace: a datagram of arbitrary bytes must not raise out of datagram_received"""
     from ndn.transport.udp_face import UdpFace
@@ -445,13 +455,16 @@ def h_udp(eng, case):
     eng.reach('end')
 
 
-HARNESSES = {'cancelled': h_cancelled, 'fragment': h_fragment, 'frame_sym': h_frame_sym, 'frame_cuts': h_frame_cuts, 'robust_sym': h_robust_sym,
+HARNESSES = {'stray_nack': h_stray_nack, 'cancelled': h_cancelled, 'fragment': h_fragment, 'frame_sym': h_frame_sym, 'frame_cuts': h_frame_cuts, 'robust_sym': h_robust_sym,
              'robust_mut': h_robust_mut, 'udp': h_udp}
 
 
 def cases(tier, seed):
     quick = tier == 'quick'
     cs = []
+    for front in ('v2', 'v1'):
+        for name in ('/p/x', '/p', '/a', '/a/b/c', '/zz'):
+            cs.append(('stray_nack', {'front': front, 'name': name}, {'weight': 3}))
     for front in ('v2', 'v1'):
         for n in (1, 2, 3):
             cs.append(('cancelled', {'front': front, 'consumers': n}, {'weight': 3}))
